@@ -31,3 +31,8 @@ def _bt_value_lists(ctx):
 
 
 BOUNDED = BOUNDED + [_bt_value_lists]
+
+FUNCTIONS = FUNCTIONS + [q for q in [q for q in PARSE_SMALL if q.endswith("parse_pseudo_lang")] if q not in FUNCTIONS]
+STRUCTURAL = (globals().get('STRUCTURAL') or []) + [dispatch_structural]
+TRUSTED = list(TRUSTED) + [A_TOK]
+ASSUMPTIONS = TRUSTED
